@@ -108,7 +108,7 @@ def contract_raw(rng, inv, outv, na=(0, 2), ng=(1, 3), dyadic=0.0, nmax=3, band=
     return {"inv": list(inv), "outv": list(outv), "a": a, "g": g}
 
 
-SCHEMAS = ["indep", "cascade", "cascade_rev", "shared", "casc_shared", "feedback", "feedback_free", "fanout", "casc_extra", "sibling"]
+SCHEMAS = ["indep", "cascade", "cascade_rev", "shared", "casc_shared", "feedback", "feedback_free", "fanout", "casc_extra", "sibling", "fanout_coupled"]
 
 
 def pair_raw(rng, schema, dyadic=0.0):
@@ -141,6 +141,24 @@ def pair_raw(rng, schema, dyadic=0.0):
     elif schema == "fanout":
         d1 = contract_raw(rng, ["i"], ["y", "z"], ng=(2, 3), dyadic=dyadic, band=B)
         d2 = contract_raw(rng, ["y", "z"], ["p"], na=(1, 2), dyadic=dyadic, band=B)
+    elif schema == "fanout_coupled":
+        # the producer's guarantees couple its two outputs (rows of a 2x2 system, dominant or not);
+        # the consumer's guarantee needs a bound on a combination of both: tactics 1 / 3 with two internal variables
+        sg = rng.choice([1, -1])
+        rows = []
+        for _ in range(2):
+            m1, m2 = rng.choice([1, 1, 2, 3]), rng.choice([1, 1, 2, 3])
+            co = {"y": sg * m1, "z": sg * m2}
+            if rng.random() < 0.3:
+                co[rng.choice(["y", "z"])] /= rng.choice([4, 8])
+            if rng.random() < 0.4:
+                co["i"] = rng.choice([-1, 1])
+            rows.append((co, rng.randint(0, 4)))
+        d1 = {"inv": ["i"], "outv": ["y", "z"], "a": [({"i": 1}, 3), ({"i": -1}, 2)] if rng.random() < 0.5 else [], "g": rows}
+        d2 = {"inv": ["y", "z"], "outv": ["p"], "a": [],
+              "g": [({"p": sg, "y": -sg * rng.choice([1, 2]), "z": -sg * rng.choice([1, 2, 3])}, rng.randint(0, 3))]}
+        if rng.random() < 0.3:
+            d2["g"].append(rrow(rng, ["p"], nmax=1))
     elif schema == "sibling":
         # the producer bounds its output from one side only; the consumer's two assumptions bound it from
         # the other side and could only be discharged through each other (which would be circular)
